@@ -157,7 +157,9 @@ def corpus_cases():
 
 
 def gen_case(rng, i):
-    return {'circuit': subcorr.absorption_circuit(rng) if rng.random() < 0.12 else subcorr.random_supported_circuit(rng), 'basis': rng.choice(['AIG', 'XAIG', 'FULL', 'aig', 'xaig']),
+    r_ = rng.random()
+    return {'circuit': subcorr.absorption_circuit(rng) if r_ < 0.12 else subcorr.negated_twin_circuit(rng) if r_ < 0.2 else subcorr.negated_output_cone_circuit(rng) if r_ < 0.26 else subcorr.negated_output_template(rng) if r_ < 0.34
+            else subcorr.random_supported_circuit(rng), 'basis': rng.choice(['AIG', 'XAIG', 'FULL', 'aig', 'xaig']),
             'cut_seed': None if rng.random() < 0.7 else rng.randrange(10 ** 6),
             'time_limit': None, 'validate': rng.random() < 0.5,
             'max_subcircuit_size': rng.choice([9, 9, 4, 6]), 'cut_size': rng.choice([5, 5, 3, 4]),
